@@ -69,7 +69,7 @@ CHECKS = {
             'Partial: the semantics of asyncio, trio and threading enters the LTS as the enabling conditions of its events (assumed, DESIGN §7.1); real thread interleavings inside the frameworks and wall-clock bounds are sampled by the scenario engine, not proved. Trusted: Lean kernel + standard axioms; the LTS Model/Runtime/LTS.lean (tied by trace acceptance); the scenario engine and its mapping of log entries to model events.'),
     "C10": ("§7.6",
             'Lean 4 invariant proofs over one labelled transition system of the MetaRunner/ServiceRunner protocol (induction over arbitrary event sequences: every number of payloads, every interleaving the guards admit) + correspondence by replaying the event logs of gated scenarios run against the real runtime on the model (subset-construction trace acceptor) + outcome oracle',
-            'exec_frame, exec_once, exec_thread, exec_keeps_running are theorems over the runtime LTS; tied to the code by sequences of execute calls from every context with every outcome, compared by identity, with bystanders and a heartbeat; the opposite-direction deadlock is a recorded known finding.',
+            'exec_frame, exec_once, exec_thread, exec_keeps_running are theorems over the runtime LTS; exec_opposite_deadlock, exec_opposite_forever and exec_returns (every call in flight returns unless the two coroutine threads wait for each other - exactly then it never does) are theorems over the blocking model of execute (Model/Runtime/Exec.lean), onto which the calls, starts and returns of every scenario are replayed; tied to the code by sequences of execute calls from every context with every outcome, compared by identity, with bystanders and a heartbeat; the opposite-direction deadlock is a recorded known finding.',
             'Partial: the semantics of asyncio, trio and threading enters the LTS as the enabling conditions of its events (assumed, DESIGN §7.1); real thread interleavings inside the frameworks and wall-clock bounds are sampled by the scenario engine, not proved. Trusted: Lean kernel + standard axioms; the LTS Model/Runtime/LTS.lean (tied by trace acceptance); the scenario engine and its mapping of log entries to model events.'),
     "C11": ("§7.7",
             'Lean 4 invariant proofs over one labelled transition system of the MetaRunner/ServiceRunner protocol (induction over arbitrary event sequences: every number of payloads, every interleaving the guards admit) + correspondence by replaying the event logs of gated scenarios run against the real runtime on the model (subset-construction trace acceptor) + outcome oracle',
